@@ -6,7 +6,7 @@ TECH = "bounded-exhaustive explicit-state exploration of the real code (own expl
 
 CHECKS = {
  "C08": dict(
-   text="Every state of the SELECT / INSERT / UPDATE / DELETE builder-call state machines (QModel: BFS to depth 4 quick / 5 thorough) and every member of enumerated families of dialect-specific constructs is rendered by the real MySQL and PostgreSQL backends in both modes (to_string, build). The text must be accepted by that dialect's reference clause parser (written from the manuals' statement synopses over the reference lexer and expression parser: each clause at most once, in the grammar's position, constructs of the other dialect rejected) and its normalised clause structure (select list, FROM, joins and ON, WHERE, GROUP BY, HAVING, WINDOW, set operations, ORDER BY with NULLS form, LIMIT / OFFSET, locking, CTEs, upsert, RETURNING, UPDATE tables / SET / FROM) must equal that of an independently written explicit reference rendering of the reference state in the dialect's own forms. Families: MySQL index hints (all sequences of <= 2 / 3 hints over kind x scope, with and without following clauses), DISTINCT ON, TABLESAMPLE, named WINDOW with all 32 subsets of surrounding clauses, locking (4 strengths x OF tables x wait policy), CTEs (count x column list x materialisation x SEARCH / CYCLE), 17 PostgreSQL operators and 9 functions, enum casts in 3 positions, join forms (no ON, alias, subquery, lateral), ORDER BY forms (direction / FIELD x NULLS x SELECT / window / UPDATE / DELETE, 1-2 keys). The 89 API-variant equivalences of C07 are run for MySQL and PostgreSQL here.",
+   text="Every state of the SELECT / INSERT / UPDATE / DELETE builder-call state machines (QModel: BFS to depth 4 quick / 5 thorough) and every member of enumerated families of dialect-specific constructs is rendered by the real MySQL and PostgreSQL backends in both modes (to_string, build). The text must be accepted by that dialect's reference clause parser (written from the manuals' statement synopses over the reference lexer and expression parser: each clause at most once, in the grammar's position, constructs of the other dialect rejected) and its normalised clause structure (select list, FROM, joins and ON, WHERE, GROUP BY, HAVING, WINDOW, set operations, ORDER BY with NULLS form, LIMIT / OFFSET, locking, CTEs, upsert, RETURNING, UPDATE tables / SET / FROM) must equal that of an independently written explicit reference rendering of the reference state in the dialect's own forms. Families: MySQL index hints (all sequences of <= 2 / 3 hints over kind x scope, with and without following clauses), DISTINCT ON, TABLESAMPLE, named WINDOW with all 32 subsets of surrounding clauses, locking (4 strengths x OF tables x wait policy), CTEs (count x column list x materialisation x SEARCH / CYCLE), 17 PostgreSQL operators and 9 functions, enum casts in 3 positions, join forms (no ON, alias, subquery, lateral), ORDER BY forms (direction / FIELD x NULLS x SELECT / window / UPDATE / DELETE, 1-2 keys). The 89 API-variant equivalences of C07 are run for MySQL and PostgreSQL here, and the 112 expression methods of C07 (with the PgExpr extension methods and ANY / SOME / ALL instead of the SQLite ones) are parsed and compared with their explicit reference expressions.",
    note="Trusted: the reference clause grammars (no MySQL / PostgreSQL engine offline), the explicit reference renderer, and the normal form (parentheses, AND / OR associativity, TRUE conjuncts, IFNULL = COALESCE, MySQL `x IS NULL dir, x dir` = NULLS FIRST / LAST, MySQL UPDATE .. JOIN .. ON = comma form with WHERE). Requests a dialect cannot express (FULL OUTER JOIN on MySQL; CROSS JOIN .. ON, UPDATE / DELETE .. ORDER BY / LIMIT and REPLACE on PostgreSQL; PostgreSQL-only lock strengths, operators and functions on MySQL) are out of domain and counted. Set operations are compared as a flat list (precedence is C09's subject).",
    technique=TECH+"BFS over builder-call histories plus exhaustive enumeration of dialect-construct families, oracle = reference clause parser per dialect and structural comparison with an explicit reference rendering",
    ref="3.8"),
@@ -67,7 +67,7 @@ CHECKS = {
    technique=TECH+"all condition trees up to a size bound and all call sequences up to depth 3, oracle = three-valued truth tables on a real SQLite engine",
    ref="3.6"),
  "C07": dict(
-   text="Explicit-state BFS over builder-call histories of the real SelectStatement (57-op menu: columns, 12 expression kinds incl. CASE / functions / custom templates / scalar subqueries, window functions with frames, DISTINCT, FROM table / alias / subquery / VALUES, every join type, and_where / cond_where / IN-subquery / EXISTS, GROUP BY, HAVING, UNION / INTERSECT / EXCEPT, ORDER BY with NULLS and FIELD, LIMIT / OFFSET, CTE) to depth 4 (quick) / 5 (thorough), and of INSERT (VALUES / SELECT / DEFAULT VALUES / REPLACE / 11 ON CONFLICT variants / RETURNING), UPDATE (SET, FROM, WHERE, ORDER BY, LIMIT, RETURNING) and DELETE to depth 4 / 5. In every state whose independently written, fully explicit reference rendering the real SQLite engine accepts, to_string and build+bind are executed on the engine inside a rolled-back transaction and must give the reference's result rows (ordered when ORDER BY is present), RETURNING rows, changes() and table contents. In addition every public convenience method of the four statement builders, OnConflict and ReturningClause (89 variants: left_join .. full_outer_join, join_as, join_subquery, columns, exprs, expr_window*, from_as / from_subquery / from_values / from_function, group_by_columns, and_where_option, conditions, apply_if, the order_by_* family on SELECT / UPDATE / DELETE, lock_shared / lock_exclusive, unions, values_panic / values_from_panic, returning_col / returning_all, update_column(s), value(s) ...) is applied on top of every base statement (all sequences of <= 2 canonical calls) and must render exactly like its canonical spelling (text and bound values, both modes), which reduces its meaning to the canonical method's, decided by the state machine. The dialect-construct families of C08 (named WINDOW with all 32 subsets of surrounding clauses, ORDER BY forms x NULLS x FIELD on SELECT / window / UPDATE / DELETE, join forms, CTE options incl. [NOT] MATERIALIZED, enum casts, and index hints / DISTINCT ON / TABLESAMPLE / locking, which SQLite must drop) are executed on the engine as well: about 600 statements, each against the explicit SQLite reference text of the same declaration.",
+   text="Explicit-state BFS over builder-call histories of the real SelectStatement (57-op menu: columns, 12 expression kinds incl. CASE / functions / custom templates / scalar subqueries, window functions with frames, DISTINCT, FROM table / alias / subquery / VALUES, every join type, and_where / cond_where / IN-subquery / EXISTS, GROUP BY, HAVING, UNION / INTERSECT / EXCEPT, ORDER BY with NULLS and FIELD, LIMIT / OFFSET, CTE) to depth 4 (quick) / 5 (thorough), and of INSERT (VALUES / SELECT / DEFAULT VALUES / REPLACE / 11 ON CONFLICT variants / RETURNING), UPDATE (SET, FROM, WHERE, ORDER BY, LIMIT, RETURNING) and DELETE to depth 4 / 5. In every state whose independently written, fully explicit reference rendering the real SQLite engine accepts, to_string and build+bind are executed on the engine inside a rolled-back transaction and must give the reference's result rows (ordered when ORDER BY is present), RETURNING rows, changes() and table contents. In addition every public convenience method of the four statement builders, OnConflict and ReturningClause (89 variants: left_join .. full_outer_join, join_as, join_subquery, columns, exprs, expr_window*, from_as / from_subquery / from_values / from_function, group_by_columns, and_where_option, conditions, apply_if, the order_by_* family on SELECT / UPDATE / DELETE, lock_shared / lock_exclusive, unions, values_panic / values_from_panic, returning_col / returning_all, update_column(s), value(s) ...) is applied on top of every base statement (all sequences of <= 2 canonical calls) and must render exactly like its canonical spelling (text and bound values, both modes), which reduces its meaning to the canonical method's, decided by the state machine. The dialect-construct families of C08 (named WINDOW with all 32 subsets of surrounding clauses, ORDER BY forms x NULLS x FIELD on SELECT / window / UPDATE / DELETE, join forms, CTE options incl. [NOT] MATERIALIZED, enum casts, and index hints / DISTINCT ON / TABLESAMPLE / locking, which SQLite must drop) are executed on the engine as well: about 600 statements, each against the explicit SQLite reference text of the same declaration. Finally every public expression method (112 entries: the inherent methods of Expr and the ExprTrait methods on SimpleExpr side by side - eq .. lte, arithmetic, shifts, bit operators, between / not_between, like / not_like / escape, is / is_not, is_in / is_not_in / in_tuples / in_subquery, exists, not / and / or - the Func constructors, CASE, tuples, custom templates, and the SqliteExpr extension methods) is built once, rendered in `SELECT <expr> FROM t1` and evaluated by the engine row by row against an explicit reference expression of what the method is documented to mean.",
    note="Trusted: the explicit reference renderer (qmodel.rs / dml.rs), written from SQLite's syntax diagrams; states whose REFERENCE the engine rejects are out of domain (counted by reason; every op class must occur in executed states or the run is a machinery failure). Nested statements come from a representative pool of 4. Two genuine defects repaired by fix: commits.",
    technique=TECH+"BFS over builder-call histories with state deduplication, oracle = differential execution on a real SQLite engine against a reference rendering",
    ref="3.7"),
